@@ -43,6 +43,18 @@ CLAIMED = {
             "optimality certificate (non-negativity, KKT from independent UtU/UtM, objective vs scipy NNLS). Convergence is "
             "restated as bounded progress; budget-exhausted-but-optimal-objective cases are counted inconclusive.",
             "Trusted: scipy.optimize.nnls, numpy.linalg. cond(U) <= 50.", "DESIGN.md §2 C13"),
+    "C19": ("runtime consistency monitor on fitted regressors (predict vs exposed weights; metamorphic relations for CP-PLSR)",
+            "Seeded regression problems are fitted by the real estimators; predictions on training and unseen data are compared with "
+            "the contraction of the exposed weight tensor, the weight tensor with the reconstruction of the exposed factors and its "
+            "vectorisation; CP-PLSR is checked for transform==scores, unit loadings, constant-shift invariance and sample-permutation "
+            "equivariance by re-fitting. Sampled.",
+            "Trusted: numpy.einsum. CP-PLSR relations asserted on generic data to 1e-6 relative.", "DESIGN.md §2 C19"),
+    "C20": ("runtime optimality monitor: brute force over all R! matchings; invariance and definition checks on real metric calls",
+            "Seeded factor sets (generic, near-copies, permuted+rescaled copies with all permutations for R<=4) are scored by the real "
+            "metrics; the returned score is compared with the maximum over all matchings, the returned permutation must attain it and "
+            "recover planted permutations; correlation index range/zero-iff-equivalent/definition; error metrics vs definitions over "
+            "axis arguments; leverage scores a float64 distribution; zero columns rejected. Sampled, R <= 6.",
+            "Trusted: exhaustive enumeration of matchings, NumPy definitions.", "DESIGN.md §2 C20"),
 }
 
 PENDING_REASON = "check not built yet in this session; see DESIGN.md §2 for the planned monitor"
